@@ -174,3 +174,12 @@ Example c19_tree_sites_rounding_matters :
   (* a 4-byte key on a 64-bit build: a site that rounds and a site that does not are 4 bytes apart *)
   ks_at true 8 4 = 8 /\ ks_at false 8 4 = 4.
 Proof. repeat split. Qed.
+
+(* the poison loop of dealloc (what the model calls scribble) covers the whole header and every whole word of
+   the body, and writes nothing behind the object; the word count is the expression found in the source *)
+Theorem c19_poison_covers_header_and_body :
+  forall k w s, 0 < w ->
+    hdr_poison_words (k * w) w s = k + Nat.div s w /\
+    hdr_poison_words (k * w) w s * w <= k * w + s.
+Proof. exact HeaderProofs.poison_covers. Qed.
+Print Assumptions c19_poison_covers_header_and_body.
